@@ -102,6 +102,8 @@ func (c *Canary) VerifInject(frame []byte) error {
 // exactly as transmit() does minus the sendto.
 func (c *Canary) VerifDrainTx() [][]byte {
 	var frames [][]byte
+	c.m.Lock()
+	defer c.m.Unlock()
 	for {
 		buff := [2]byte{}
 		if _, err := c.buffer.ReadAndMaybeAdvance(buff[:], true); err != nil {
